@@ -11,7 +11,14 @@ case = {"fields": [[name, [first, [cont, ...]]], ...],   the paragraph before th
                                                          (SRC_FORMS), constructor or iter_paragraphs
                                                          (SRC_READERS; which of the paragraphs it gives)
         "cls":    str,                                   class of the paragraph (CLASSES; default Deb822)
-        "route":  str}                                   how the value is assigned (ROUTES; default d[k] = v)
+        "route":  str,                                   how the value is assigned (ALL_ROUTES; default d[k] = v)
+        "srccls": str,                                   routes "ctor" / "update-map" / "merge-map": the class of
+                                                         the mapping the value arrives in (SRC_CLASSES)
+        "pre":    str,                                   how the paragraph (and a source that is a paragraph) is
+                                                         dumped *before* the assignment (PRE; default: not)
+        "dump":   str,                                   how the text is obtained afterwards (DUMPERS; default dump())
+        "then":   [[op, index, dumper], ...]}            steps after the judgement that assign nothing (STEP_OPS),
+                                                         each followed by another dump
 
 The paragraph - a ``Deb822`` or one of its documented subclasses (Dsc, Changes, Sources, BuildInfo,
 Release, PdiffIndex, Packages, Removals) - is built by assignment (neighbour values come from the
@@ -38,6 +45,31 @@ combined by the library; how is not part of this property, so the value the para
 afterwards is read back from the paragraph and *that* is the value judged (rule says "accept",
 dump re-reads as one paragraph); a ValueError that leaves the paragraph unchanged is always allowed
 there (a single-line value does not combine with a multi-line one).
+
+Class of the source mapping.  Every route that takes a mapping is also taken with the mapping being
+a dict, an OrderedDict, a Deb822Dict (built from a dict, from pairs, by item assignment), a
+collections.abc.Mapping subclass, a MappingProxyType, a UserDict, an object with only ``keys()`` and
+``[]`` and an iterator of pairs (both: update() only), a Deb822 the parser handed out, and a paragraph
+of each of the nine classes - of the own class too: ``update(mapping)`` and ``merge_fields(key,
+mapping)`` with the mapping holding the one field, and route "ctor": the paragraph is *constructed*
+from a mapping that holds all its fields, the value in the place of the field assigned to
+(``Deb822(mapping)``, what ``copy()`` does).  A source that is a paragraph refuses the value itself
+when it is put in (then there is no case: label) - unless the name is a record field of the *source's*
+class, which keeps any text there: a Dsc holding a text under Files handed to ``Deb822(...)``, where
+Files is an ordinary field.  Construction is judged like any assignment: accepted -> the rule must
+say accept and the dump reads back as one paragraph with the mapping's names; refused -> the rule
+must say reject.  A construction refused with TypeError counts as refused (no object exists, nothing
+is written; the unchanged library's error path turns the ValueError into a TypeError there).
+
+Dumps before and after.  "Dumping the paragraph" is ``dump()``, ``str()``, ``bytes()`` or ``dump(fd)``
+into a text or a binary file (case key "dump").  With "pre" the paragraph - and a source that is a
+paragraph - is dumped once *before* the assignment; a refused assignment must then give the same text
+again.  With "then", after the judgement, steps that assign nothing follow - a field removed by
+``del`` (also in another spelling), ``pop``, ``pop`` with a default, ``popitem``, ``clear``; fields
+moved by ``order_last``, ``order_first``, ``sort_fields`` - and after each the paragraph is dumped
+again: that text, read back (str and binary-file form, both parser settings where allowed, generic
+and own-class readers), must give exactly the names the paragraph has then, in order; an empty
+paragraph must read back as no paragraph.
 
 Origin of the paragraph.  "Any paragraph" includes one the parser handed out.  With origin "text"
 the paragraph is parsed from a text over the property's alphabet - lines ended by LF, CR LF, a mix
@@ -80,7 +112,11 @@ assigned is then made of strings, and the statement's "can never add a field, tr
 or start a new one" applies to what is written.  The records are plain dicts, Deb822Dicts or records
 the parser handed out; the list is assigned by ``d[key] = records``, the ``update`` forms or
 ``setdefault``, or a record the paragraph already holds is changed in place (``d[key][i][comp] =
-value``); for a Release both documented settings of ``size_field_behavior`` are used.  Judged:
+value``), or the records arrive in a mapping: ``update(paragraph of the own class)``, or the paragraph
+is constructed from a paragraph of its own class / a dict holding the records, or by ``copy()``
+(a construction refused with AttributeError also counts as refused: the unchanged library refuses
+every construction from a mapping that holds records that way); for a Release both documented
+settings of ``size_field_behavior`` are used.  Judged:
 EITHER the assignment or ``dump()`` is refused with ValueError or TypeError (a refused assignment
 must leave the paragraph as it was) - nothing is written, nothing can be injected - OR the text
 ``dump()`` returns, re-read like any accepted value (generic reader, own class's constructor and
@@ -89,8 +125,11 @@ whitespace-only line), gives one paragraph with exactly the paragraph's field na
 are refused is not asked (the unchanged library refuses, from ``dump()``, every component holding
 LF or CR and writes everything else).
 """
+import collections
+import collections.abc
 import io
 import itertools
+import types
 
 from hypothesis import strategies as st
 
@@ -147,6 +186,20 @@ RULE = ("a case is (paragraph, key, value); enumerated: every string of 0..4 cha
         "the paragraph holds, records being dicts, Deb822Dicts or parser-made, both "
         "Release.size_field_behavior settings: refused (nothing written) or written and read back as "
         "one paragraph with the same names. "
+        "Class of the source mapping as a dimension: every string of 0..2 characters x 21 classes of "
+        "mapping (dict, OrderedDict, Deb822Dict three ways, Mapping subclass, MappingProxyType, UserDict, "
+        "keys()+[] object, iterator of pairs, paragraph of the own class, parsed Deb822, a paragraph of each "
+        "of the 9 classes) x {construct the paragraph from it, update() with it, merge_fields() with it}; "
+        "and for all 230 (class, name, class in which that name carries records) triples a source paragraph "
+        "of that class holding, under that name, every string of 0..1 characters and 5 paragraph-splitting "
+        "values; record lists also arrive by update(own-class paragraph), construction from an own-class "
+        "paragraph / a dict, and copy(). "
+        "Dumps as a dimension: the paragraph (and a source paragraph) dumped before the assignment in 5 ways "
+        "or not at all x 9 steps that assign nothing afterwards (del, del in another spelling, pop, pop with "
+        "default, popitem, clear, order_last, order_first, sort_fields) x 5 ways of getting the text after "
+        "the assignment x 5 after the step, pairs of steps, parsed paragraphs, record fields as neighbours: "
+        "every later text must read back as exactly the names the paragraph then has; generated cases draw "
+        "route, source class, dump beforehand, dumper and 0..3 steps as well. "
         "Non-trivial = the value is rejected, or is accepted and contains a line boundary (LF or CR), or "
         "is a string for a record field, or the paragraph was parsed from a text containing CR, or (record "
         "lists) the write is refused or the component holds LF, CR, ':', a leading '#'/'-' or only blanks; "
@@ -188,6 +241,32 @@ ASSUMPTIONS = [
     "content are C12's business), and so is one holding a name that is not a Policy 5.1 field name (a "
     "binary-mode line 'CR #X: y' is read as a field called '#X'); field names before the assignment are list(d.keys()); a text-mode "
     "file is io.TextIOWrapper over the bytes (nothing is written to disk)",
+    "construction from a mapping (route ctor) is taken as an assignment of every value the mapping holds, "
+    "the neighbours being valid by construction; refused = ValueError or TypeError from the constructor "
+    "(the unchanged library raises TypeError from its error path when the mapping is not a list: no "
+    "object exists, nothing can be written); update(mapping) and merge_fields(key, mapping) must refuse "
+    "with ValueError like d[k]=v; a record-field neighbour is given to the constructor as the text of two "
+    "well-formed records; for a key that carries records in the paragraph's own class the constructor "
+    "would take the text apart as records, so update(mapping) is used instead (label route:update-map)",
+    "a source mapping that is itself a paragraph (or a parsed Deb822) and refuses the value when it is "
+    "put in, or does not hand back the same names when parsed, gives no case (label "
+    "source-class-cannot-hold-the-value); the custom Mapping / keys()+[] classes and the iterator of "
+    "pairs are defined in this module; keys()+[] and the iterator are for update() only (elsewhere the "
+    "Mapping subclass is used); a source paragraph holding a text in a record field of its class cannot "
+    "be dumped beforehand (any exception from that dump is ignored, label source-dump-refused)",
+    "dumping = dump(), str(d), bytes(d) decoded as UTF-8, dump(StringIO, text_mode=True), dump(BytesIO) "
+    "decoded as UTF-8 - the documented ways to the same text",
+    "steps after the judgement (del / pop / popitem / clear / order_* / sort_fields): which field a step "
+    "removes or where it moves one is not modelled (C09) - the names demanded of the later text are "
+    "list(d.keys()) after the step; the step's field is names[index % len(names)], no step on an empty "
+    "paragraph; an empty paragraph must read back as [] (iter_paragraphs) or one paragraph without "
+    "fields (constructor); the later text is re-read from the str and the binary-file form only; a later "
+    "dump may raise only while a record field of the own class holds a plain string; after a refused "
+    "assignment that followed a dump, the same way of dumping must give the same text again",
+    "record lists, routes ctor-own / ctor-dict / copy: refused = ValueError, TypeError or AttributeError "
+    "from the construction (the unchanged library refuses every construction from a mapping holding "
+    "records with AttributeError); the source paragraph is filled by assignment and may be dumped "
+    "beforehand (a refusal of that dump is ignored)",
     "update() is exercised with exactly one item, so that 'rejected leaves the paragraph unchanged' "
     "is what the statement says; setdefault on an existing key and the keyword form with a name that is "
     "not an identifier fall back to d[k]=v / update(dict) (label route:...)",
@@ -265,8 +344,29 @@ EXHAUSTIVE_RECORD_LISTS = {
              "the middle and the last of three records); place of the field in the paragraph (absent / first / middle / last), other "
              "spelling of the name, one record instead of three, kind of record object (dict, Deb822Dict, "
              "handed out by the parser), route (d[k]=v, update forms, setdefault, changing a held record in "
-             "place), origin and Release.size_field_behavior cycling",
+             "place, update with an own-class paragraph, construction from an own-class paragraph / a dict, "
+             "copy()), origin and Release.size_field_behavior cycling",
     "thorough": "the same, every case with all three kinds of record object and both size-column settings",
+}
+EXHAUSTIVE_SOURCE_CLASSES = {
+    "quick": "all strings of 0..2 characters over 12 characters (157) x 21 classes of source mapping (dict, "
+             "OrderedDict, Deb822Dict built from a dict / from pairs / by item assignment, a Mapping subclass, "
+             "MappingProxyType, UserDict, an object with keys() and [] only, an iterator of pairs, a paragraph "
+             "of the own class, a parsed Deb822, a paragraph of each of the 9 classes) x {constructor, "
+             "update(), merge_fields()}; + one (class, name, source class in which the name carries records) "
+             "triple each; all strings of 0..1 characters and 5 paragraph-splitting values x all 230 such triples; "
+             "field, class, origin, dump beforehand cycling",
+    "thorough": "the same with all strings of 0..3 characters (1 885)",
+}
+EXHAUSTIVE_LATER_DUMPS = {
+    "quick": "6 ways of dumping beforehand (none, dump(), str(), dump(text fd), dump(binary fd), bytes()) x 9 "
+             "steps that assign nothing (del, del in another spelling, pop, pop with default, popitem, clear, "
+             "order_last, order_first, sort_fields) x 5 ways of getting the text after the assignment x 5 after "
+             "the step x 5 values (accepted single-line, accepted multi-line, two refused, empty); 6 x every "
+             "ordered pair of steps x 3 values; 9 steps x 5 dumpers x (10 input forms of a parsed paragraph + "
+             "every third (class, record field) pair as a neighbour); field named by the step, class, route, "
+             "source class and origin cycling",
+    "thorough": "the same, the first block in three classes each, every (class, record field) pair",
 }
 BUDGET = {"quick": 400, "thorough": 2400}
 
@@ -471,17 +571,230 @@ def warm_up_key(own_cls, key):
 
 ROUTES = ["setitem", "update-dict", "update-Deb822Dict", "update-Deb822Dict-pairs", "update-pairs",
           "update-kwargs", "setdefault", "merge-dict", "merge-Deb822Dict"]
-MERGE_ROUTES = ("merge-dict", "merge-Deb822Dict")
+# ... and the routes that take a mapping of the class named by the case's "srccls": the paragraph
+# is constructed from it (it holds all fields), or it is handed to update() / merge_fields() (it
+# holds the one field)
+MAP_ROUTES = ("ctor", "update-map", "merge-map")
+ALL_ROUTES = ROUTES + list(MAP_ROUTES)
+MERGE_ROUTES = ("merge-dict", "merge-Deb822Dict", "merge-map")
 
 
-def effective_route(route, key, is_new):
-    """setdefault assigns only when the key is new, the keyword form needs an identifier: where a
-    route does not apply, the plain one is taken."""
+def effective_route(route, key, is_new, record_key=False):
+    """setdefault assigns only when the key is new, the keyword form needs an identifier, the text a
+    constructor is given for a record field is taken apart as records (not a string assigned):
+    where a route does not apply, the plain one is taken."""
     if route == "setdefault" and not is_new:
         return "setitem"
     if route == "update-kwargs" and not key.isidentifier():
         return "update-dict"
+    if route == "ctor" and record_key:
+        return "update-map"
     return route
+
+
+# ------------------------------------------------------------------------------------------
+# the class of the mapping a paragraph is constructed from / updated with / merged with
+
+
+class _Mapping(collections.abc.Mapping):
+    """A read-only mapping that is not a dict (collections.abc.Mapping subclass)."""
+
+    def __init__(self, pairs):
+        self._d = dict(pairs)
+
+    def __getitem__(self, k):
+        return self._d[k]
+
+    def __iter__(self):
+        return iter(self._d)
+
+    def __len__(self):
+        return len(self._d)
+
+
+class _KeysGetitem(object):
+    """The least update() asks of a mapping: keys() and []."""
+
+    def __init__(self, pairs):
+        self._d = dict(pairs)
+
+    def keys(self):
+        return list(self._d)
+
+    def __getitem__(self, k):
+        return self._d[k]
+
+
+SRC_CLASSES = (["dict", "OrderedDict", "Deb822Dict", "Deb822Dict-pairs", "Deb822Dict-setitem", "Mapping",
+                "MappingProxy", "UserDict", "keys-getitem", "items-iterator", "own", "Deb822-parsed"]
+               + list(STRUCTURED))
+
+
+def effective_srccls(srccls, route, cls):
+    """The class of the source mapping actually used: the paragraph's own class for "own"; an
+    iterator of pairs and an object with keys() and [] only are for update() - elsewhere the
+    Mapping subclass is taken."""
+    if srccls == "own":
+        return cls
+    if srccls in ("keys-getitem", "items-iterator") and route != "update-map":
+        return "Mapping"
+    return srccls
+
+
+def build_source(srccls, pairs):
+    """A mapping of class ``srccls`` holding ``pairs`` (in order) - or None if an object of that
+    class cannot hold them: a paragraph class refuses a value (ValueError) on the way in, a parsed
+    paragraph holds what the parser read."""
+    pairs = [(k, v) for k, v in pairs]
+    if srccls == "dict":
+        return dict(pairs)
+    if srccls == "OrderedDict":
+        return collections.OrderedDict(pairs)
+    if srccls == "Deb822Dict":
+        return Deb822Dict(dict(pairs))
+    if srccls == "Deb822Dict-pairs":
+        return Deb822Dict(pairs)
+    if srccls == "Deb822Dict-setitem":
+        src = Deb822Dict()
+        for k, v in pairs:
+            src[k] = v
+        return src
+    if srccls == "Mapping":
+        return _Mapping(pairs)
+    if srccls == "MappingProxy":
+        return types.MappingProxyType(dict(pairs))
+    if srccls == "UserDict":
+        return collections.UserDict(pairs)
+    if srccls == "keys-getitem":
+        return _KeysGetitem(pairs)
+    if srccls == "items-iterator":
+        return iter(pairs)
+    parsed = srccls == "Deb822-parsed"
+    src = getattr(_lib, "Deb822" if parsed else srccls)()
+    try:
+        for k, v in pairs:
+            src[k] = v          # (a record field of that class keeps a text unlooked at)
+    except ValueError:
+        return None
+    if parsed:
+        got = list(Deb822.iter_paragraphs(src.dump(), strict=dict(WSP_OFF)))
+        if len(got) != 1 or [k.lower() for k in got[0].keys()] != [k.lower() for k, _v in pairs]:
+            return None
+        return got[0]
+    return src
+
+
+def records_text(cls, name, n=2):
+    """The text of a record field holding ``n`` well-formed records (what ``records`` parses)."""
+    rec = _record_line(cls, name)
+    return rec if single_record(cls, name) else "\n" + "\n".join([" " + rec] * n)
+
+
+# ------------------------------------------------------------------------------------------
+# ways to get the text of a paragraph, and steps between two dumps that assign nothing
+
+DUMPERS = ["dump", "str", "dump-text-fd", "dump-binary-fd", "bytes"]
+PRE = ["none"] + DUMPERS
+STEP_OPS = ["del", "del-othercase", "pop", "pop-default", "popitem", "clear", "order-last", "order-first",
+            "sort"]
+
+
+def dump_by(d, dumper):
+    """The text of the paragraph: dump(), str(), bytes() or dump(fd) into a text / binary file."""
+    if dumper == "str":
+        return str(d)
+    if dumper == "bytes":
+        return bytes(d).decode("utf-8")
+    if dumper == "dump-text-fd":
+        fd = io.StringIO()
+        d.dump(fd, text_mode=True)
+        return fd.getvalue()
+    if dumper == "dump-binary-fd":
+        fd = io.BytesIO()
+        d.dump(fd)
+        return fd.getvalue().decode("utf-8")
+    return d.dump()
+
+
+def steps_ok(steps):
+    return (isinstance(steps, list) and len(steps) <= 4 and all(
+        isinstance(x, list) and len(x) == 3 and x[0] in STEP_OPS and isinstance(x[1], int)
+        and not isinstance(x[1], bool) and x[2] in DUMPERS for x in steps))
+
+
+def apply_step(d, op, target):
+    if op == "del":
+        del d[target]
+    elif op == "del-othercase":
+        del d[_othercase(target)]
+    elif op == "pop":
+        d.pop(target)
+    elif op == "pop-default":
+        d.pop(_othercase(target), None)
+    elif op == "popitem":
+        d.popitem()
+    elif op == "clear":
+        d.clear()
+    elif op == "order-last":
+        d.order_last(target)
+    elif op == "order-first":
+        d.order_first(target)
+    elif op == "sort":
+        d.sort_fields()
+    else:
+        raise AssertionError(op)
+
+
+def later_dumps(d, steps, cls, how, labels):
+    """After the assignment was judged: steps that assign nothing - a field removed by del / pop /
+    popitem / clear, fields re-ordered - each followed by another dump: the text written *then*,
+    read back, must give exactly the names the paragraph has *then* (no paragraph for an empty
+    one)."""
+    own = STRUCTURED_LOWER[cls]
+    for op, idx, dumper in steps:
+        names = list(d.keys())
+        if not names:
+            break
+        target = names[idx % len(names)]
+        apply_step(d, op, target)
+        names = list(d.keys())
+        what = "%s; then %s (%r), then %s" % (how, op, target, dumper)
+        labels.append("then:" + op)
+        labels.append("then-dumper:" + dumper)
+        # a record field holding a plain string cannot be written (see the module docstring)
+        unwritable = any(n.lower() in own and isinstance(d[n], str) for n in names)
+        try:
+            text = dump_by(d, dumper)
+        except Exception:
+            if not unwritable:
+                raise
+            labels.append("then:dump-refused")
+            continue
+        if not isinstance(text, str):
+            raise Violation("dump-not-a-string", "after %s the text is %s" % (what, short(text)))
+        settings = [("wsp-off", WSP_OFF)]
+        if not any(isinstance(v, str) and has_blank_continuation(v) for v in d.values()):
+            settings.append(("default", None))
+        forms = _forms(text)
+        forms = [forms[0], forms[3]]                  # str, binary file
+        for rname, read in _readers(cls, generic_only=unwritable):
+            for sname, strict in settings:
+                for fname, make in forms:
+                    try:
+                        got = read(make(), None if strict is None else dict(strict))
+                    except ValueError as e:
+                        got, sig, why = None, "reread-raised", "ValueError(%s)" % e
+                    else:
+                        if not names:
+                            sig, why = ((None, "") if got in ([], [[]]) else
+                                        ("text-for-empty-paragraph", "the paragraph has no fields"))
+                        else:
+                            sig, why = _classify(got, names)
+                    if sig:
+                        raise Violation("later-dump:" + sig,
+                                        "%s: text %s re-read by %s from %s (%s) gives %s: %s; the "
+                                        "paragraph's names are %r" % (what, short(text), rname, fname, sname,
+                                                                      short(got), why, names))
 
 
 def assign(d, key, value, route):
@@ -686,7 +999,10 @@ def check(case):
     if not (isinstance(case, dict) and name_ok(case.get("key"))
             and in_domain(case.get("value")) and isinstance(case.get("cls", "Deb822"), str)
             and case.get("cls", "Deb822") in STRUCTURED and isinstance(case.get("route", "setitem"), str)
-            and case.get("route", "setitem") in ROUTES):
+            and case.get("route", "setitem") in ALL_ROUTES
+            and isinstance(case.get("srccls", "dict"), str) and case.get("srccls", "dict") in SRC_CLASSES
+            and case.get("pre", "none") in PRE and case.get("dump", "dump") in DUMPERS
+            and steps_ok(case.get("then", []))):
         return (False, ("invalid-or-out-of-domain-case-skipped",))
     origin = case.get("origin", "new")
     from_text = origin == "text"
@@ -738,10 +1054,31 @@ def check(case):
     else:
         target = "new-key"
         expect_lower = lower + [key.lower()]
-    route = effective_route(case.get("route", "setitem"), key, target == "new-key")
+    route = effective_route(case.get("route", "setitem"), key, target == "new-key", record_key)
     if record_key and route in MERGE_ROUTES:
         route = "setitem"                # combining records with a string is not an assignment
     how = "d[%r] = %r" % (key, value) if route == "setitem" else "%s of %r: %r" % (route, key, value)
+    pre, dumper, steps = case.get("pre", "none"), case.get("dump", "dump"), case.get("then", [])
+    srcmap = srccls = None
+    if route in MAP_ROUTES:
+        srccls = effective_srccls(case.get("srccls", "dict"), route, cls)
+        if route == "ctor":
+            # the mapping holds every field of the paragraph (a record field: the text of its
+            # records) and, in the place of the field assigned to (or at the end), the value
+            pairs = [[k, v if isinstance(v, str) else records_text(cls, k)] for k, v in before]
+            if target == "new-key":
+                pairs.append([key, value])
+            else:
+                pairs[pos] = [names_before[pos], value]
+            how = "%s(%s holding %s)" % (cls, srccls, short(pairs))
+        else:
+            pairs = [[key, value]]
+            how = "%s with a %s holding %r: %r" % (route, srccls, key, value)
+        srcmap = build_source(srccls, pairs)
+    if pre != "none":
+        how = "%s first; %s" % (pre, how)
+    if dumper != "dump":
+        how = "%s; text by %s" % (how, dumper)
     if cls != "Deb822":
         how = "%s paragraph, %s" % (cls, how)
     if from_text:
@@ -755,6 +1092,18 @@ def check(case):
 
     verdict = rule(value)
     labels = ["target:" + target, "origin:" + str(origin), "class:" + cls, "route:" + route]
+    if srccls is not None:
+        labels.append("source-class:" + srccls)
+        if srcmap is None:
+            # (that class refused the value on the way in - itself an assignment, made by other cases)
+            labels.append("source-class-cannot-hold-the-value")
+            return (False, labels)
+        if srccls in STRUCTURED and key.lower() in STRUCTURED_LOWER[srccls]:
+            labels.append("source-holds-text-in-its-record-field")
+    if pre != "none":
+        labels.append("dumped-before:" + pre)
+    if dumper != "dump":
+        labels.append("dumper:" + dumper)
     if observed:
         labels.append("merge-with-nonempty-field:stored-value-judged")
     if elsewhere:
@@ -778,11 +1127,41 @@ def check(case):
     if any(n.lower() in own for n in names_before if n.lower() != key.lower()):
         labels.append("record-field-neighbour")
 
+    # a dump before the step under test: of the paragraph, and of the source if it is a paragraph
+    # (one that holds a text in a record field of its class cannot be written: not asked)
+    pre_text = dump_by(d, pre) if pre != "none" else None
+    if pre != "none" and hasattr(srcmap, "dump"):
+        try:
+            dump_by(srcmap, pre)
+        except Exception:
+            if not any(k.lower() in STRUCTURED_LOWER.get(srccls, ()) for k, _v in pairs):
+                raise
+            labels.append("source-dump-refused")
+
+    def done(nontrivial):
+        later_dumps(d, steps, cls, how, labels)
+        return (nontrivial, labels)
+
+    built = None
     try:
-        assign(d, key, value, route)
+        if route == "ctor":
+            built = getattr(_lib, cls)(srcmap)
+        elif route == "update-map":
+            d.update(srcmap)
+        elif route == "merge-map":
+            d.merge_fields(key, srcmap)
+        else:
+            assign(d, key, value, route)
         accepted = True
     except ValueError:
         accepted = False
+    except TypeError as e:
+        # constructing from a mapping: the unchanged library reports the ValueError of the refused
+        # assignment as a TypeError from its error path; no object exists, nothing can be written
+        if route != "ctor":
+            raise Violation("raised-not-ValueError:TypeError", "%s raised TypeError(%s)" % (how, short(str(e))))
+        accepted = False
+        labels.append("construction-refused-with-TypeError")
     except Exception as e:      # "rejected with ValueError": no other exception is a rejection
         raise Violation("raised-not-ValueError:" + type(e).__name__,
                         "%s raised %s(%s); the rule says %s" % (
@@ -796,15 +1175,21 @@ def check(case):
             raise Violation("rejected-but-state-changed",
                             "%s raised ValueError but items went from %s to %s"
                             % (how, short(before), short(after)))
+        if pre_text is not None:
+            again = dump_by(d, pre)
+            if again != pre_text:
+                raise Violation("rejected-but-dump-changed",
+                                "%s was refused but the text went from %s to %s"
+                                % (how, short(pre_text), short(again)))
         if record_key:
             # a string is not what such a field holds: refusing it, whatever it looks like, is fine
             labels.append("rejected:string-for-record-field")
-            return (True, labels)
+            return done(True)
         if observed:
             # combining two non-empty values may be refused for reasons of its own (a single-line
             # with a multi-line value) or give an invalid value; either way a rejection is allowed
             labels.append("rejected:merge-with-nonempty-field")
-            return (True, labels)
+            return done(True)
         # The statement only says which values MUST be rejected.  That a value is accepted is
         # promised elsewhere (C02) for first line + continuation lines that start with a blank and
         # contain non-blank text; for other values (whitespace-only continuation lines, CR used as
@@ -814,25 +1199,29 @@ def check(case):
             l[:1] in (" ", "\t") and l.strip(" \t") != "" for l in plain[1:])
         if verdict is None and not c02_domain:
             labels.append("rejected-outside-c02-domain")
-            return (True, labels)
+            return done(True)
         if verdict is None:
             raise Violation("rejected-valid-value",
                             "%s raised ValueError although it does not end in a newline and every "
                             "continuation line starts with a blank" % how)
         labels.append("rejected:" + verdict)
-        return (True, labels)
+        return done(True)
 
+    if built is not None:
+        if type(built).__name__ != cls:
+            raise Violation("constructed-another-class", "%s gave a %s" % (how, type(built).__name__))
+        d = built
     names = list(d.keys())
     if record_key and isinstance(d.get(key), str):
         # accepted - but the paragraph may be impossible to write: then nothing is read back
         try:
-            text = d.dump()
+            text = dump_by(d, dumper)
         except Exception as e:
             labels.append("string-for-record-field:dump-refused:" + type(e).__name__)
-            return (True, labels)
+            return done(True)
         labels.append("string-for-record-field:dumped")
     else:
-        text = d.dump()
+        text = dump_by(d, dumper)
     if not isinstance(text, str):
         raise Violation("dump-not-a-string", "after %s dump() gave %s" % (how, short(text)))
     if observed:
@@ -887,7 +1276,7 @@ def check(case):
         labels.append("pgp-armor-lookalike")
     if any(":" in l for l in split_lines(value)[1:]):
         labels.append("accepted-colon-in-continuation")
-    return (multiline or record_key or (from_text and "\r" in src["text"]), labels)
+    return done(multiline or record_key or bool(steps) or (from_text and "\r" in case["src"]["text"]))
 
 
 # ------------------------------------------------------------------------------------------
@@ -895,7 +1284,10 @@ def check(case):
 
 REC_TYPES = ["dict", "Deb822Dict", "parsed"]
 REC_ROUTES = ["setitem", "update-dict", "update-Deb822Dict", "update-pairs", "update-kwargs", "setdefault",
-              "mutate"]
+              "mutate", "ctor-own", "ctor-dict", "copy", "update-own"]
+# the paragraph is constructed from a mapping that holds the records: a paragraph of its own class
+# (also by copy()) or a dict
+REC_CTOR_ROUTES = ("ctor-own", "ctor-dict", "copy")
 REC_PLACES = ["absent", "first", "middle", "last"]
 REC_SIZES = ["apt-ftparchive", "dak"]
 REFUSAL = (ValueError, TypeError)
@@ -939,7 +1331,7 @@ def check_records(case):
     paragraph with exactly the paragraph's field names.  Which strings are refused is not asked."""
     cls, key, value = case.get("cls"), case.get("key"), case.get("value")
     if not (isinstance(cls, str) and cls in STRUCTURED and isinstance(key, str)
-            and key.lower() in STRUCTURED_LOWER[cls] and in_domain(value)
+            and key.lower() in STRUCTURED_LOWER[cls] and in_domain(value) and case.get("pre", "none") in PRE
             and all(isinstance(case.get(k, 0), int) and not isinstance(case.get(k, 0), bool)
                     for k in ("n", "at", "comp"))):
         return (False, ("invalid-or-out-of-domain-case-skipped",))
@@ -1000,12 +1392,34 @@ def check_records(case):
     boundary = any("\n" in v or "\r" in v for _a, _c, v in hostile)
 
     before = _snap(d)
+    built = None
+    klass = getattr(_lib, cls)
+    # constructing a paragraph from a mapping that holds records: any of these refusals leaves no
+    # object behind (the unchanged library refuses every such construction with AttributeError)
+    refusal = REFUSAL + ((AttributeError,) if route in REC_CTOR_ROUTES else ())
     try:
         for at, ci, v in hostile:
             (held if single else held[at % n])[comps[ci % len(comps)]] = v
-        if route != "mutate":
+        if route in REC_CTOR_ROUTES:
+            source = klass()
+            for fname in list(d.keys()):
+                source[fname] = d[fname]
+            source[key] = held
+            if case.get("pre", "none") != "none":
+                labels.append("dumped-before:" + case["pre"])
+                try:
+                    dump_by(source, case["pre"])
+                except REFUSAL:
+                    labels.append("source-dump-refused")
+            built = (source.copy() if route == "copy" else
+                     klass(source) if route == "ctor-own" else klass(dict(source.items())))
+        elif route == "update-own":
+            source = klass()
+            source[key] = held
+            d.update(source)
+        elif route != "mutate":
             assign(d, key, held, route)
-    except REFUSAL as e:
+    except refusal as e:
         if route != "mutate" and _snap(d) != before:
             raise Violation("records:rejected-but-state-changed",
                             "%s raised %s but items went from %s to %s"
@@ -1013,6 +1427,10 @@ def check_records(case):
         labels.append("records:assignment-refused:" + type(e).__name__)
         return (True, labels)
 
+    if built is not None:
+        if type(built).__name__ != cls:
+            raise Violation("constructed-another-class", "%s gave a %s" % (how, type(built).__name__))
+        d = built
     names = list(d.keys())
     try:
         text = d.dump()
@@ -1158,6 +1576,118 @@ def enum_route_cases(maxlen):
     return gen
 
 
+# (class of the paragraph, name that is ordinary there, class in which that name carries records -
+# a paragraph of which keeps a text under it unlooked at)
+FOREIGN_TRIPLES = [(c, n, sc) for c, n in FOREIGN_PAIRS for sc in CLASSES if n.lower() in STRUCTURED_LOWER[sc]]
+SPLITTING = ["x\n", "x\n\nB: y", "\nB: y", "x\n \n\nB: y", "x\r\rB: y"]
+SAMPLE_VALUES = ["v", "v\n w", "v\n\nB: x", "v\nB: x", ""]
+
+
+def _then(j, n=1):
+    """``n`` steps between dumps, ops / index / dumper cycling with ``j``."""
+    return [[STEP_OPS[(j + 4 * i) % len(STEP_OPS)], (j // 2 + i) % 4, DUMPERS[(j // 3 + 2 * i) % len(DUMPERS)]]
+            for i in range(n)]
+
+
+def enum_source_class_cases(maxlen):
+    """The class of the mapping as a dimension: every string of 0..maxlen characters x every class
+    of source mapping x {construction from it, update() with it, merge_fields() with it}; the
+    field assigned to, the class of the paragraph, its origin, a dump beforehand and the steps
+    afterwards cycle.  And names that carry records in the *source's* class (which keeps a text
+    there as it is) and are ordinary in the paragraph's class."""
+    def gen():
+        k = 0
+        for n in range(0, maxlen + 1):
+            for seq in itertools.product(ENUM_CHARS, repeat=n):
+                v = "".join(seq)
+                k += 1
+                for si, sc in enumerate(SRC_CLASSES):
+                    for r, route in enumerate(MAP_ROUTES):
+                        j = k + si + 5 * r
+                        if route == "merge-map":
+                            fields, key = [(AKZ, "New"), (AKZ_EMPTY_K, "K"), (AKZ, "A"), (AKZ_EMPTY_K, "k")][j % 4]
+                        else:
+                            fields, key = AKZ, ["K", "New", "A", "k", "Z"][j % 5]
+                        case = {"fields": fields, "key": key, "value": v, "origin": ORIGINS[(j // 2) % len(ORIGINS)],
+                                "cls": CLASSES[(k + 2 * si + r) % len(CLASSES)], "route": route, "srccls": sc,
+                                "pre": PRE[(j // 3) % len(PRE)]}
+                        if j % 4 == 0:
+                            case["then"] = _then(j)
+                        yield case
+                c, name, sc = FOREIGN_TRIPLES[(k * 7) % len(FOREIGN_TRIPLES)]
+                for r, route in enumerate(MAP_ROUTES):
+                    yield {"fields": _akz(name) if (k + r) % 2 else AKZ, "key": name, "value": v,
+                           "origin": ORIGINS[(k + r) % len(ORIGINS)], "cls": c, "route": route, "srccls": sc,
+                           "pre": PRE[(k + r) % len(PRE)]}
+                # every value of up to 1 character, and a few that would split the paragraph,
+                # meet every such triple
+                if n <= 1:
+                    for j, (c, name, sc) in enumerate(FOREIGN_TRIPLES):
+                        for i, val in enumerate([v] + (SPLITTING if n == 0 else [])):
+                            yield {"fields": _akz(name) if (k + j + i) % 2 else AKZ,
+                                   "key": name if (k + j) % 3 else _othercase(name), "value": val,
+                                   "origin": ORIGINS[(k + j) % len(ORIGINS)], "cls": c,
+                                   "route": MAP_ROUTES[0 if i else (k + j) % 3], "srccls": sc,
+                                   "pre": PRE[(k + j + i) % len(PRE)]}
+    return gen
+
+
+def enum_later_dump_cases(full):
+    """A dump before the step under test, and steps that assign nothing between two dumps: every
+    way of getting the text beforehand (or none) x every step (del, del in another spelling, pop,
+    pop with default, popitem, clear, order_last, order_first, sort_fields) x how the text is
+    obtained after the assignment x how it is obtained after the step, for an accepted single-line,
+    an accepted multi-line, two refused and the empty value; every ordered pair of steps; which
+    field the step names, the class, the route, the source class and the origin cycle
+    (``full``: every case in three classes)."""
+    def gen():
+        j = 0
+        for pre in PRE:
+            for op in STEP_OPS:
+                for d1 in DUMPERS:
+                    for d2 in DUMPERS:
+                        for vi, v in enumerate(SAMPLE_VALUES):
+                            for rep in range(3 if full else 1):
+                                j += 1
+                                yield {"fields": AKZ, "key": ["K", "New", "Z", "a"][(j // 5) % 4], "value": v,
+                                       "origin": ORIGINS[j % len(ORIGINS)], "cls": CLASSES[(j // 7 + 3 * rep) % len(CLASSES)],
+                                       "route": ALL_ROUTES[(j // 3) % len(ALL_ROUTES)],
+                                       "srccls": SRC_CLASSES[(j // 2) % len(SRC_CLASSES)],
+                                       "pre": pre, "dump": d1, "then": [[op, (j // 4) % 4, d2]]}
+        for pre in PRE:
+            for op1 in STEP_OPS:
+                for op2 in STEP_OPS:
+                    for vi, v in enumerate(SAMPLE_VALUES[:3]):
+                        j += 1
+                        yield {"fields": AKZ, "key": ["K", "New", "Z", "a"][(j // 3) % 4], "value": v,
+                               "origin": ORIGINS[j % len(ORIGINS)], "cls": CLASSES[(j // 5) % len(CLASSES)],
+                               "route": ALL_ROUTES[(j // 3) % len(ALL_ROUTES)],
+                               "srccls": SRC_CLASSES[(j // 2) % len(SRC_CLASSES)], "pre": pre,
+                               "dump": DUMPERS[j % len(DUMPERS)],
+                               "then": [[op1, j % 4, DUMPERS[(j // 2) % len(DUMPERS)]],
+                                        [op2, (j // 4) % 3, DUMPERS[(j // 3) % len(DUMPERS)]]]}
+        # ... and with the paragraph parsed from a text, and a record field of the own class among
+        # the fields (the step may name it)
+        for op in STEP_OPS:
+            for d2 in DUMPERS:
+                for f, form in enumerate(SRC_FORMS):
+                    j += 1
+                    yield {"origin": "text", "src": {"text": render(AKZ, SRC_EOLS[j % 2], final=bool(j % 3)),
+                                                     "form": form, "reader": SRC_READERS[(j // 2) % 2]},
+                           "key": ["K", "New", "A"][j % 3], "value": SAMPLE_VALUES[j % len(SAMPLE_VALUES)],
+                           "cls": CLASSES[(j // 3) % len(CLASSES)], "route": ALL_ROUTES[(j // 2) % len(ALL_ROUTES)],
+                           "srccls": SRC_CLASSES[j % len(SRC_CLASSES)], "pre": PRE[(j // 2) % len(PRE)],
+                           "then": [[op, j % 4, d2]]}
+                for c, name in OWN_PAIRS[:: 1 if full else 3]:
+                    j += 1
+                    yield {"fields": _akz(name), "key": ["A", "New", name, "Z"][j % 4],
+                           "value": SAMPLE_VALUES[j % len(SAMPLE_VALUES)], "origin": ORIGINS[j % len(ORIGINS)],
+                           "cls": c, "route": ALL_ROUTES[(j // 2) % len(ALL_ROUTES)],
+                           "srccls": SRC_CLASSES[j % len(SRC_CLASSES)], "pre": PRE[(j // 2) % len(PRE)],
+                           "then": [[op, 1 if j % 3 else 0, d2]]}
+    return gen
+
+
 OWN_PAIRS = [(c, n) for c in CLASSES for n in STRUCTURED[c]]
 
 
@@ -1285,7 +1815,9 @@ paragraph = st.one_of(st.sampled_from(NEIGHBOURS), st.sampled_from(NEIGHBOURS), 
 cls_name = st.one_of(st.just("Deb822"), st.sampled_from(CLASSES))                 # 5/9 plain Deb822
 src_eols = st.lists(st.sampled_from(["\n", "\n", "\r\n", "\r\n", "\r"]), min_size=1, max_size=3)
 STRAY = ["\r", "\r", "\r\r", "\r ", "\r\t", " \r", "\r\n", "\rB: x", "\rB:", "\r\rB: x", "\r B: x", "\r#"] + TOKENS
-route_name = st.one_of(st.just("setitem"), st.sampled_from(ROUTES), st.sampled_from(ROUTES))
+route_name = st.one_of(st.just("setitem"), st.sampled_from(ALL_ROUTES), st.sampled_from(ALL_ROUTES))
+later_steps = st.lists(st.tuples(st.sampled_from(STEP_OPS), st.integers(0, 3), st.sampled_from(DUMPERS)),
+                       min_size=1, max_size=3)
 
 
 @st.composite
@@ -1326,7 +1858,17 @@ def gen_case(draw):
         if key.lower() in lower:
             key = "New-Field-2"
     case = {"fields": fields, "key": key, "value": draw(any_value), "origin": draw(st.sampled_from(ORIGINS)),
-            "cls": cls, "route": draw(route_name)}
+            "cls": cls, "route": draw(route_name), "srccls": draw(st.sampled_from(SRC_CLASSES))}
+    if how == "elsewhere" and draw(st.booleans()):
+        # the value arrives in a mapping of a class in which this name carries records
+        case["srccls"] = draw(st.sampled_from([c for c in CLASSES if key.lower() in STRUCTURED_LOWER[c]]))
+        case["route"] = draw(st.sampled_from(MAP_ROUTES))
+    if draw(st.booleans()):
+        case["pre"] = draw(st.sampled_from(PRE))
+    if draw(st.integers(0, 2)) == 0:
+        case["dump"] = draw(st.sampled_from(DUMPERS))
+    if draw(st.booleans()):
+        case["then"] = draw(later_steps)
     if how != "own-record" and draw(st.integers(0, 3)) == 0:
         # the paragraph is parsed from a text instead: these fields, written with a mix of line
         # ends, with up to two tokens dropped in anywhere, handed over in one of the input forms
@@ -1388,7 +1930,8 @@ def gen_record_case(draw):
             "place": draw(st.sampled_from(REC_PLACES)), "n": draw(st.integers(1, 3)),
             "at": draw(st.integers(0, 2)), "comp": draw(st.integers(0, 4)), "value": draw(any_value),
             "rec": draw(st.sampled_from(REC_TYPES)), "route": draw(st.sampled_from(REC_ROUTES)),
-            "origin": draw(st.sampled_from(ORIGINS)), "sizes": draw(st.sampled_from(REC_SIZES))}
+            "origin": draw(st.sampled_from(ORIGINS)), "sizes": draw(st.sampled_from(REC_SIZES)),
+            "pre": draw(st.sampled_from(PRE))}
     if draw(st.integers(0, 2)) == 0:
         case["also"] = draw(st.lists(st.tuples(st.integers(0, 2), st.integers(0, 4), any_value),
                                      min_size=1, max_size=2))
@@ -1404,6 +1947,8 @@ def sources(tier):
                 Enum("source-line-ends<=2chars", enum_source_eol_cases(2), EXHAUSTIVE_SOURCE["quick"]),
                 Enum("source-stray<=3chars", enum_source_stray_cases(3), EXHAUSTIVE_STRAY["quick"]),
                 Enum("record-lists", enum_record_list_cases(False), EXHAUSTIVE_RECORD_LISTS["quick"]),
+                Enum("source-classes<=2chars", enum_source_class_cases(2), EXHAUSTIVE_SOURCE_CLASSES["quick"]),
+                Enum("dump-step-dump", enum_later_dump_cases(False), EXHAUSTIVE_LATER_DUMPS["quick"]),
                 Hyp("token-values", gen_case(), 1200, shards=8),
                 Hyp("record-list-values", gen_record_case(), 400, shards=2)]
     return [Enum("values<=5chars", enum_cases(5), EXHAUSTIVE["thorough"]),
@@ -1413,5 +1958,7 @@ def sources(tier):
             Enum("source-line-ends<=3chars", enum_source_eol_cases(3), EXHAUSTIVE_SOURCE["thorough"]),
             Enum("source-stray<=4chars", enum_source_stray_cases(4), EXHAUSTIVE_STRAY["thorough"]),
             Enum("record-lists-full", enum_record_list_cases(True), EXHAUSTIVE_RECORD_LISTS["thorough"]),
+            Enum("source-classes<=3chars", enum_source_class_cases(3), EXHAUSTIVE_SOURCE_CLASSES["thorough"]),
+            Enum("dump-step-dump-full", enum_later_dump_cases(True), EXHAUSTIVE_LATER_DUMPS["thorough"]),
             Hyp("token-values", gen_case(), 25000, shards=16),
             Hyp("record-list-values", gen_record_case(), 8000, shards=4)]
